@@ -285,6 +285,7 @@ func (r *Run) run() {
 		registerListeners(r, StNotes, boltz.EntityStore[*Note](r.st.Notes))
 		registerListeners(r, StTickets, boltz.EntityStore[*Ticket](r.st.Tickets))
 		registerListeners(r, StGroups, boltz.EntityStore[*Group](r.st.Groups))
+		registerListeners(r, StMemos, boltz.EntityStore[*Memo](r.st.Memos))
 	}
 	if err := r.open(); err != nil {
 		res.HarnessErr = "open: " + err.Error()
@@ -1016,8 +1017,12 @@ func (r *Run) execOp(a *attempt, ctx boltz.MutateContext, i int, op Op) error {
 	}
 	r.mu.Lock()
 	a.events = append(a.events, exp.Events...)
-	a.deleted = append(a.deleted, exp.Deleted...)
-	if len(exp.Deleted) >= 3 {
+	for _, d := range exp.Deleted {
+		if !strings.HasPrefix(d.Store, "probe:") {
+			a.deleted = append(a.deleted, d)
+		}
+	}
+	if len(exp.Deleted) >= 3 || (len(exp.Deleted) > 0 && exp.Deleted[len(exp.Deleted)-1].Store == "probe:cascade") {
 		if r.res.Probes == nil {
 			r.res.Probes = map[string]int{}
 		}
@@ -1058,7 +1063,7 @@ func (r *Run) propsForUnexpectedError(op Op) []string {
 			if len(op.Groups) > 0 {
 				set["C05"] = true
 			}
-		case StBadges, StNotes, StTickets:
+		case StBadges, StNotes, StTickets, StMemos:
 			set["C04"] = true
 		case StGroups:
 			set["C05"] = true
